@@ -520,6 +520,7 @@ func parseSpecLines(lines []specLine, pkg string, file string, trusted bool) (*S
 	var cur *FuncSpec
 	var curCallee *CalleeSpec
 	var lastClause *Clause
+	calleeIndent := 0
 	counter := map[string]int{}
 	mk := func(kind, owner, src, pos string) (*Clause, error) {
 		e, err := ParseExpr(src)
@@ -534,6 +535,10 @@ func parseSpecLines(lines []specLine, pkg string, file string, trusted bool) (*S
 		t := strings.TrimSpace(ln.text)
 		if t == "" {
 			continue
+		}
+		indent := len(ln.text) - len(strings.TrimLeft(ln.text, " \t"))
+		if curCallee != nil && indent <= calleeIndent && !strings.HasPrefix(t, "+") {
+			curCallee = nil // a clause indented no deeper than its "callee" line belongs to the function again
 		}
 		if i := strings.Index(t, " //"); i >= 0 {
 			// trailing comment inside contract line (not inside a string literal: keep simple)
@@ -740,6 +745,7 @@ func parseSpecLines(lines []specLine, pkg string, file string, trusted bool) (*S
 			cs.Name = name
 			cur.Callees = append(cur.Callees, cs)
 			curCallee = cs
+			calleeIndent = indent
 		case "endcallee":
 			curCallee = nil
 		case "bind":
